@@ -1,7 +1,266 @@
 package main
 
-import "math/rand"
+import (
+	"fmt"
+	"math/rand"
+	"strings"
+)
+
+func pick(r *rand.Rand, xs ...string) string { return xs[r.Intn(len(xs))] }
+
+// ---------------------------------------------------------------- kind=prov
+
+func genShoot(r *rand.Rand, names []string, malformed bool) string {
+	n := names[r.Intn(len(names))]
+	if malformed && r.Intn(3) == 0 {
+		return pick(r, n+"(", n+")", n+"(1))", n+"(x)", n+"(1,y)", "("+n, n+"(1)(2)", n+"(1.5)", n+"(1 2)", "nosuch", "nosuch(2)",
+			n+"(99999999999999999999)", " "+n, n+" ", n+"(0x10)", n+"(1_0)")
+	}
+	switch r.Intn(14) {
+	case 0, 1, 2:
+		return n
+	case 3, 4:
+		return fmt.Sprintf("%s(%d)", n, 1+r.Intn(4))
+	case 5, 6:
+		return fmt.Sprintf("%s(%d,%d)", n, 1+r.Intn(4), r.Intn(30))
+	case 7:
+		return fmt.Sprintf(" %s ( %d , %d ) ", n, r.Intn(3), r.Intn(20)-3)
+	case 8:
+		return fmt.Sprintf("sleep(%d)", r.Intn(50))
+	case 9:
+		return pick(r, "sleep", "sleep()", "sleep( 7 )", "sleep(-2)", "sleep(3,9)")
+	case 10:
+		return pick(r, n+"()", n+"(,5)", n+"(2,)", n+"(0)", n+"(-1)", n+"(+2)", n+"(1,2,3)", n+"(01,007)")
+	case 11:
+		return fmt.Sprintf("%s(%d)", n, r.Intn(3))
+	default:
+		return fmt.Sprintf("%s(%d, %d)", n, 1+r.Intn(3), 1+r.Intn(9))
+	}
+}
+
+func genWeights(r *rand.Rand, k int, odd bool) []string {
+	ws := make([]string, k)
+	mul := 1
+	if r.Intn(2) == 0 {
+		mul = 1 + r.Intn(4)
+	}
+	for i := range ws {
+		switch x := r.Intn(12); {
+		case x == 0:
+			ws[i] = "-"
+		case x == 1:
+			ws[i] = "0"
+		case x == 2 && odd:
+			ws[i] = fmt.Sprint(-1 - r.Intn(4))
+		default:
+			ws[i] = fmt.Sprint(mul * (1 + r.Intn(5)))
+		}
+	}
+	return ws
+}
+
+func genProv(r *rand.Rand) string {
+	reqPool := []string{"a", "b", "c", "login", "order_req", "r 1", "запрос"}
+	r.Shuffle(len(reqPool), func(i, j int) { reqPool[i], reqPool[j] = reqPool[j], reqPool[i] })
+	names := reqPool[:1+r.Intn(4)]
+	odd := r.Intn(8) == 0
+	malformed := r.Intn(6) == 0
+	nsc := 1 + r.Intn(4)
+	if r.Intn(30) == 0 {
+		nsc = 0
+	}
+	scPool := []string{"s1", "s2", "s3", "main", "сцен", "s 4"}
+	r.Shuffle(len(scPool), func(i, j int) { scPool[i], scPool[j] = scPool[j], scPool[i] })
+	ws := genWeights(r, nsc, odd)
+	var scs []string
+	for i := 0; i < nsc; i++ {
+		name := scPool[i]
+		if odd && i > 0 && r.Intn(3) == 0 {
+			name = scPool[0] // duplicate scenario name
+		}
+		k := 1 + r.Intn(5)
+		var shoots []string
+		for j := 0; j < k; j++ {
+			sh := genShoot(r, names, malformed)
+			if j == 0 && strings.HasPrefix(strings.TrimSpace(sh), "sleep") && r.Intn(10) != 0 {
+				sh = names[0]
+			}
+			shoots = append(shoots, escv(sh))
+		}
+		mwt := pick(r, "-", "0", "100", "2500")
+		scs = append(scs, esc(name)+":"+ws[i]+":"+mwt+":"+strings.Join(shoots, "|"))
+	}
+	var rq []string
+	for _, n := range names {
+		rq = append(rq, esc(n))
+	}
+	if odd && r.Intn(2) == 0 {
+		rq = append(rq, esc(names[0])) // duplicate request name
+	}
+	return fmt.Sprintf("kind=prov n=%d rq=%s sc=%s", 30+r.Intn(60), strings.Join(rq, "|"), strings.Join(scs, ";"))
+}
+
+// ---------------------------------------------------------------- kind=gun
+
+func genGun(r *rand.Rand, inst int) string {
+	names := []string{"a", "b", "c", "d"}[:2+r.Intn(3)]
+	rows := 1 + r.Intn(8)
+	shots := 3 + r.Intn(8)
+	if inst > 1 {
+		shots = 6 + r.Intn(10)
+		rows = 1 + r.Intn(60)
+	}
+	// which variables each request produces
+	type vars struct{ pre, post []string }
+	prod := map[string]*vars{}
+	var defs []string
+	for _, n := range names {
+		v := &vars{}
+		prod[n] = v
+		method := pick(r, "G", "P")
+		var pre []string
+		mode := r.Intn(4) // 0: none, 1-2: source draws, 3: references
+		hasNext := false
+		switch mode {
+		case 1, 2:
+			for j, k := 0, 1+r.Intn(3); j < k; j++ {
+				vn := fmt.Sprintf("v%d", j)
+				switch x := r.Intn(8); {
+				case x <= 3 && !hasNext: // one [next] draw per request: two draws in one mapping are handed out in Go map order
+					pre = append(pre, vn+"=n")
+					v.pre = append(v.pre, vn)
+					hasNext = true
+				case x == 4:
+					pre = append(pre, fmt.Sprintf("%s=i%d", vn, r.Intn(rows+6)-3))
+					v.pre = append(v.pre, vn)
+				case x == 5:
+					pre = append(pre, vn+"=l")
+					v.pre = append(v.pre, vn)
+				case x == 6 && inst == 1:
+					pre = append(pre, fmt.Sprintf("rv%d=r", j))
+				default:
+					pre = append(pre, fmt.Sprintf("%s=i%d", vn, r.Intn(rows)))
+					v.pre = append(v.pre, vn)
+				}
+			}
+		case 3:
+			for j, k := 0, 1+r.Intn(2); j < k; j++ {
+				o := names[r.Intn(len(names))]
+				vn := fmt.Sprintf("w%d", j)
+				pre = append(pre, fmt.Sprintf("%s=q%s.%s.%s", vn, o, pick(r, "post", "post", "pre"), pick(r, "tok", "n", "h", "v0", "v1")))
+				v.pre = append(v.pre, vn)
+			}
+		}
+		part := func(allowErr bool) string {
+			o := names[r.Intn(len(names))]
+			switch x := r.Intn(10); {
+			case x <= 1:
+				return "c" + pick(r, "x", "lit", "0", "A-b_c")
+			case x <= 4:
+				return "p" + o + "." + pick(r, "tok", "tok", "n", "h", "zz")
+			case x <= 7:
+				return "e" + o + "." + pick(r, "v0", "v0", "v1", "w0", "nope")
+			case x == 8 && allowErr && r.Intn(4) == 0:
+				return fmt.Sprintf("s%d", rows+r.Intn(3))
+			default:
+				return fmt.Sprintf("s%d", r.Intn(rows))
+			}
+		}
+		allowErr := !(inst > 1 && hasNext)
+		var uri, body, post []string
+		for j, k := 0, r.Intn(4); j < k; j++ {
+			uri = append(uri, part(allowErr))
+		}
+		if method == "P" && r.Intn(2) == 0 {
+			for j, k := 0, 1+r.Intn(3); j < k; j++ {
+				body = append(body, part(allowErr))
+			}
+		}
+		for j, k := 0, r.Intn(4); j < k; j++ {
+			switch x := r.Intn(12); {
+			case x <= 3:
+				post = append(post, "jtok=tok")
+				v.post = append(v.post, "tok")
+			case x == 4:
+				post = append(post, "jn=n")
+			case x == 5:
+				post = append(post, "hh=X-Tok")
+			case x == 6:
+				post = append(post, "hm=X-None")
+			case x == 7:
+				post = append(post, pick(r, "a200", "a200", "a0", "a201"))
+			case x == 8:
+				post = append(post, pick(r, "tT", "ttok", "tZZ"))
+			case x == 9 && r.Intn(3) == 0:
+				post = append(post, "jz=zz")
+			default:
+				post = append(post, "jtok=tok")
+			}
+		}
+		defs = append(defs, strings.Join([]string{n, method, strings.Join(pre, "|"), strings.Join(uri, "|"), strings.Join(body, "|"), strings.Join(post, "|")}, ":"))
+	}
+	nsc := 1 + r.Intn(3)
+	ws := genWeights(r, nsc, false)
+	var scs []string
+	for i := 0; i < nsc; i++ {
+		var shoots []string
+		for j, k := 0, 1+r.Intn(4); j < k; j++ {
+			n := names[r.Intn(len(names))]
+			switch r.Intn(7) {
+			case 0:
+				shoots = append(shoots, fmt.Sprintf("%s(%d)", n, 1+r.Intn(3)))
+			case 1:
+				shoots = append(shoots, fmt.Sprintf("%s(%d,%d)", n, 1+r.Intn(2), 1+r.Intn(3)))
+			case 2:
+				if j > 0 {
+					shoots = append(shoots, fmt.Sprintf("sleep(%d)", 1+r.Intn(4)))
+				} else {
+					shoots = append(shoots, n)
+				}
+			default:
+				shoots = append(shoots, n)
+			}
+		}
+		scs = append(scs, fmt.Sprintf("s%d:%s:%s:%s", i+1, ws[i], pick(r, "-", "0", "3", "8"), strings.Join(shoots, "|")))
+	}
+	var orc []string
+	for i := 0; i < inst; i++ {
+		var o []string
+		for j, k := 0, r.Intn(shots*4); j < k; j++ {
+			switch x := r.Intn(20); {
+			case x == 0:
+				o = append(o, "g")
+			case x == 1:
+				o = append(o, "c")
+			case x == 2:
+				o = append(o, "b")
+			case x == 3:
+				o = append(o, "e")
+			case x == 4:
+				o = append(o, pick(r, "s404", "s500", "s201", "s503"))
+			default:
+				o = append(o, "k")
+			}
+		}
+		orc = append(orc, strings.Join(o, ","))
+	}
+	return fmt.Sprintf("kind=gun inst=%d shots=%d L=%d rq=%s sc=%s or=%s", inst, shots, rows, strings.Join(defs, ";"), strings.Join(scs, ";"), strings.Join(orc, "/"))
+}
 
 func gen(r *rand.Rand, tier string) []string {
-	return nil
+	nProv, nGun1, nGun4 := 600, 250, 120
+	if tier == "thorough" {
+		nProv, nGun1, nGun4 = 12000, 4000, 2000
+	}
+	var out []string
+	for i := 0; i < nProv; i++ {
+		out = append(out, genProv(r))
+	}
+	for i := 0; i < nGun1; i++ {
+		out = append(out, genGun(r, 1))
+	}
+	for i := 0; i < nGun4; i++ {
+		out = append(out, genGun(r, 4))
+	}
+	return out
 }
